@@ -210,3 +210,33 @@ def do_replay(prop, path):
         return 1
     fsim.say(f"replay {path}: property {prop} held")
     return 0
+
+
+def c19_cross_phase(prop, tier, seed, digests, jobs, hashseeds=("1", "987654321")):
+    """Recompute the digests of the batch in fresh interpreters (other hash seeds, shifted heap); returns mismatches."""
+    idxs = sorted(digests)
+    if not idxs:
+        return [], 0
+    lo, hi = idxs[0], idxs[-1] + 1
+    per = max(1, (hi - lo + jobs - 1) // max(1, jobs // len(hashseeds)))
+    procs = []
+    for k, hs in enumerate(hashseeds):
+        for a in range(lo, hi, per):
+            b = min(hi, a + per)
+            env = dict(os.environ)
+            env["PYTHONHASHSEED"] = hs
+            cmd = [sys.executable, os.path.join(fsim.VERIF, "tools", "c19_worker.py"), "--garbage", str(5000 + 9973 * k),
+                   "--range", prop, tier, str(seed), str(a), str(b)]
+            procs.append((hs, subprocess.Popen(cmd, stdout=subprocess.PIPE, stderr=subprocess.PIPE, text=True, env=env)))
+    bad = []
+    n = 0
+    for hs, p in procs:
+        out, err = p.communicate(timeout=1800)
+        if p.returncode != 0:
+            raise RuntimeError("c19 worker failed: " + err[-500:])
+        got = json.loads(next(l for l in out.splitlines() if l.startswith("DIGESTS "))[8:])
+        for k, d in got.items():
+            n += 1
+            if int(k) in digests and digests[int(k)] != d:
+                bad.append((int(k), hs, d, digests[int(k)]))
+    return bad, n
